@@ -109,7 +109,7 @@ def P(pid):
             ('RF-B message lists handed down whole', rf_consts.rule_list_integrity, 15),
             ('RF-A option-normalisation proof_gen/proof_verify', lambda c: rf_consts.rule_option_normalisation(c, [T.POK + 'proof_gen', T.POK + 'proof_verify']), 8),
             ('RF-N proof length and layout', rf_codec.rule_proof_length, 4),
-            ('RF-N reader/writer agreement', rf_codec.rule_reader_writer, 3),
+            ('RF-N reader/writer agreement', rf_codec.rule_reader_writer, 2),
             ('RF-O production/mock twin agreement', rf_rand.rule_cfg_twins, 8),
             ('RF-B interface constants proof_gen/proof_verify', lambda c: rf_consts.rule_interface_constants(c, [T.POK + 'proof_gen', T.POK + 'proof_verify']), 10),
             ('RF-B index normalisation', rf_codec.rule_index_normalisation, 3),
@@ -117,7 +117,7 @@ def P(pid):
             ('RF-P accumulation loops cover every message', lambda c: rf_codec.rule_loop_coverage(c, fns=['bbsplus::proof::proof_init', 'bbsplus::proof::proof_verify_init', 'bbsplus::proof::proof_finalize']), 5),
             ('RF-T size thresholds (uniform behaviour in L / lengths)', rf_frame.rule_size_thresholds, 3),
             ('RF-G2 role positions (prover)', rf_rand.rule_role_projection, 6),
-            ('RF-F proof_gen panic census', lambda c: rf_panic.rule_panic_census(c, entries=[T.POK + 'proof_gen'], with_serde=False, min_functions=12), 40),
+            ('RF-F proof_gen panic census', lambda c: rf_panic.rule_panic_census(c, entries=[T.POK + 'proof_gen'], with_serde=False, min_functions=10), 25),
             ('RF-D success values are computed from the inputs they bind', lambda c: rf_frame.rule_result_binding(c, only=['::proof_gen']), 6),
             ('RF-L index lists are validated against their own message list', rf_frame.rule_index_lists_validated, 5),
             ('RF-V acceptance regions (no new refusal of inputs accepted before)', lambda c: rf_accept.rule_acceptance_regions(c, only=['::proof_gen', '::proof_verify', 'core_proof_gen', 'core_proof_verify', 'proof_init', 'proof_verify_init', 'calculate_domain']), 3),
@@ -140,7 +140,7 @@ def P(pid):
             ('RF-G2 role positions (commit)', rf_rand.rule_role_projection, 6),
             ('RF-T size thresholds (uniform behaviour in L / lengths)', rf_frame.rule_size_thresholds, 3),
             ('RF-B index translation agreement', rf_codec.rule_index_translation, 2),
-            ('RF-F blind generation panic census', lambda c: rf_panic.rule_panic_census(c, entries=[T.POK + 'blind_proof_gen', T.BSIG + 'blind_sign'], with_serde=False, min_functions=15), 60),
+            ('RF-F blind generation panic census', lambda c: rf_panic.rule_panic_census(c, entries=[T.POK + 'blind_proof_gen', T.BSIG + 'blind_sign'], with_serde=False, min_functions=12), 35),
             ('RF-D success values are computed from the inputs they bind', lambda c: rf_frame.rule_result_binding(c, only=['blind_sign','commit','blind_proof_gen']), 15),
             ('RF-L index lists are validated against their own message list', rf_frame.rule_index_lists_validated, 5),
             ('RF-V acceptance regions (no new refusal of inputs accepted before)', lambda c: rf_accept.rule_acceptance_regions(c, only=['commit', 'deserialize_and_validate_commit', 'blind_sign', 'verify_blind_sign', 'blind_proof_gen', 'blind_proof_verify', 'core_commit', 'core_commit_verify', 'prepare_parameters', 'calculate_blind_challenge', 'core_proof_gen', 'core_proof_verify', 'proof_verify_init']), 3),
@@ -169,7 +169,7 @@ def P(pid):
         meta['assumptions'] = ['rand::thread_rng is a CSPRNG reseeded from the OS', 'Scalar::random samples uniformly']
     elif pid == 'C08':
         R = [
-            ('RF-F panic-site census', rf_panic.rule_panic_census, 150),
+            ('RF-F panic-site census', rf_panic.rule_panic_census, 90),
             ('RF-F allocation bounded by input size', rf_panic.rule_alloc_bounded, 15),
         ]
         meta['explanation'] = ('Every panic-capable MIR site (bounds / overflow asserts, slice range indexing, unwrap/expect, CtOption::unwrap, '
@@ -183,7 +183,7 @@ def P(pid):
             ('RF-E decoder framing', rf_frame.rule_decoder_framing, 7),
             ('RF-D identity / zero exclusion in decoders', lambda c: rf_gates.rule_accept_requirements(c, T.DECODER_REQS), 6),
             ('RF-D checked constructors only', rf_frame.rule_checked_constructors, 8),
-            ('RF-N reader/writer agreement', rf_codec.rule_reader_writer, 3),
+            ('RF-N reader/writer agreement', rf_codec.rule_reader_writer, 2),
             ('RF-N serde writer/reader agreement (derive output)', rf_codec.rule_serde_symmetry, 25),
         ]
         meta['explanation'] = ('Decides completely the length clause: the set of input lengths each decoder can accept, computed from difference-bound '
@@ -195,7 +195,7 @@ def P(pid):
             ('A5 constants equal the drafts', rf_consts.rule_ciphersuite_constants, 30),
             ('RF-C octet-string ingredients are hashed whole', rf_hash.rule_whole_ingredients, 9),
             ('RF-C ingredient sets and length prefixes', lambda c: rf_hash.rule_hash_binding(c, rf_hash.BBS_TABLE, BBS_SCOPE), 60),
-            ('RF-C I2OSP widths', rf_hash.rule_i2osp_width, 8),
+            ('RF-C I2OSP widths', rf_hash.rule_i2osp_width, 4),
             ('RF-A absent == empty in every function of the layer', rf_consts.rule_option_normalisation_all, 50),
             ('RF-S no shared state (schedule quantifier)', rf_consts.rule_shared_state, 3),
         ]
@@ -210,7 +210,7 @@ def P(pid):
             ('RF-S no shared state (history quantifier)', rf_consts.rule_shared_state, 3),
             ('RF-T size thresholds (uniform behaviour in L / lengths)', rf_frame.rule_size_thresholds, 3),
 
-            ('RF-F update_signature panic census', lambda c: rf_panic.rule_panic_census(c, entries=[T.SIG + 'update_signature'], with_serde=False, min_functions=8), 12),
+            ('RF-F update_signature panic census', lambda c: rf_panic.rule_panic_census(c, entries=[T.SIG + 'update_signature'], with_serde=False, min_functions=6), 8),
             ('RF-D success values are computed from the inputs they bind', lambda c: rf_frame.rule_result_binding(c, only=['update_signature','::sign']), 9),
             ('RF-V acceptance regions (no new refusal of inputs accepted before)', lambda c: rf_accept.rule_acceptance_regions(c, only=['update_signature', 'core_sign', 'core_verify']), 3),
             ('RF-W acceptance conditions test the combinations of inputs tested before', lambda c: rf_gatesets.rule_gate_sets(c, group='bbs', only=['update_signature']), 2),
@@ -367,7 +367,7 @@ def thorough_extra(pid):
     if pid in ('C07', 'C03', 'C05'):
         R.append(('RF-G1 provenance @prod-default', lambda c: rf_rand.rule_randomness_provenance(c, cfg='prod-default'), 8))
     if pid in ('C08',):
-        R.append(('RF-F panic census @prod-default', lambda c: rf_panic.rule_panic_census(c, cfg='prod-default'), 150))
+        R.append(('RF-F panic census @prod-default', lambda c: rf_panic.rule_panic_census(c, cfg='prod-default'), 90))
     if pid in ('C07', 'C10', 'C12', 'C11'):
         for cfg in ('prod-default', 'prod-bbs'):
             R.append(('RF-S shared state @%s' % cfg, (lambda cfg: lambda c: rf_consts.rule_shared_state(c, cfg=cfg))(cfg), 3))
